@@ -82,7 +82,7 @@ class Frozen(Monitor):
                 col.report(f"argument-mutated/{out.api}/{role}/{outcome}", {'path': d, 'field': field_of(d)}, case)
             nonempty = self.nonempty(before)
             if nonempty and not out.ok:
-                col.nontrivial_key(f"{k}|{role}|raised|{type(out.exc).__name__}")
+                col.nontrivial_key(f"{out.api}|{role}|{kind}|raised|{type(out.exc).__name__}")
                 col.sample(lambda: {'op': op, 'exception': repr(out.exc)[:120], 'history_len': len(world.history)})
         # reuse depth of operands
         depth = 0
@@ -91,7 +91,8 @@ class Frozen(Monitor):
         for e in out.new_entries:
             self.depth[world.pool.index(e)] = depth + 1
         if out.ok and depth >= 1:
-            col.nontrivial_key(f"{k}|reused|depth{min(depth, 4)}")
+            kinds = ''.join(sorted({(b.get('k') if isinstance(b, dict) else 'l') or 'v' for b in out.pre}))
+            col.nontrivial_key(f"{out.api}|{kinds}|reused|depth{min(depth, 6)}")
         # (2) pool invariant
         new = {id(e) for e in out.new_entries}
         arg_ids = {id(a) for _, a in out.args}
@@ -146,7 +147,7 @@ def run(col):
     prof = dict(PROFILE)
     prof['max_dim'] = 3 if col.tier == 'quick' else 4
     core.run_property(col, lambda: benchmachine.make_machine(col, pp, prof, Frozen(col)),
-                      budget(40, 600, col.tier), tag='bench', stateful_step_count=budget(25, 40, col.tier))
+                      budget(40, 600, col.tier), tag='bench', stateful_step_count=25 if col.tier == 'quick' else 40)
     try:
         from engines import programs
     except ImportError:
